@@ -29,9 +29,10 @@ func (t *Teamserver) Died(Agent *agent.Agent) {
 
 func (t *Teamserver) UnlinkFromAll(Agent *agent.Agent) {
 	// remove all links from agent
-	for i := range Agent.Pivots.Links {
-		t.LinkRemove(Agent, Agent.Pivots.Links[i], false)
-		Agent.Pivots.Links = append(Agent.Pivots.Links[:i], Agent.Pivots.Links[i+1:]...)
+	Links := Agent.Pivots.Links
+	Agent.Pivots.Links = nil
+	for _, Link := range Links {
+		t.LinkRemove(Agent, Link, false)
 	}
 
 	// remove agent from parent's link
